@@ -84,7 +84,7 @@ impl InstructionGenerator {
         // A to variable
         self.store_counter(&counter_var_name, pos);
         // upper bound to A
-        self.generate_expression_instructions_casting(upper_bound, counter_type);
+        self.generate_expression_instructions_casting(upper_bound, counter_type.clone());
         self.store_hidden(&limit, pos);
         match step {
             Some(s) => {
@@ -92,10 +92,11 @@ impl InstructionGenerator {
                 let step_var = Self::for_loop_hidden_variable(
                     "step",
                     pos,
-                    Self::numeric_qualifier(&s.expression_type()),
+                    Self::numeric_qualifier(&counter_type),
                 );
-                // load step to A
-                self.generate_expression_instructions(s);
+                // load step to A, converted to the type of the counter like the bounds,
+                // so that the counter only ever holds values of its own type
+                self.generate_expression_instructions_casting(s, counter_type);
                 self.store_hidden(&step_var, pos);
                 // is step = 0 ?
                 self.push_load(Variant::VInteger(0), pos);
